@@ -245,6 +245,8 @@ def run(R):
         check_prompt_table(c, repo)
     with R.clause('D6', 'IDX', floor=6, desc='prompt() and set_unique_prompt() read their own lists correctly') as c:
         check_prompt_fn(c, repo)
+    with R.clause('D7', 'EVIDENCE', floor=4, desc='sync_original_prompt() reports success only for a non-empty, repeated response') as c:
+        check_sync(c, repo.func('pxssh:pxssh.sync_original_prompt'))
 
 
 def check_evidence(c, f, g, kinds_at):
@@ -313,6 +315,72 @@ def check_evidence(c, f, g, kinds_at):
     c.check(okr, f, at[0].ast, 'with prompt reset enabled, True is returned only after set_unique_prompt() succeeded (failure raises)', tag='reset-required')
 
 
+def emptiness_edge(test, names):
+    """label of the edge on which the tested response is known to be NON-empty, for a test
+    that is exactly an emptiness test of one of *names* (a response variable or its length)"""
+    e = test
+    neg = False
+    while isinstance(e, ast.UnaryOp) and isinstance(e.op, ast.Not):
+        neg = not neg
+        e = e.operand
+    if isinstance(e, ast.Name) and e.id in names:
+        return 'false' if neg else 'true'
+    if isinstance(e, ast.Call) and dotted(e.func) == 'len' and e.args and isinstance(e.args[0], ast.Name) and e.args[0].id in names:
+        return 'false' if neg else 'true'
+    cp = compare_parts(e)
+    if cp:
+        l, op, r = cp
+        lt = l.id if isinstance(l, ast.Name) else (l.args[0].id if isinstance(l, ast.Call) and dotted(l.func) == 'len' and l.args and isinstance(l.args[0], ast.Name) else None)
+        if lt in names and is_const(r, 0):
+            if isinstance(op, ast.Eq):
+                return 'true' if neg else 'false'
+            if isinstance(op, (ast.NotEq, ast.Gt)):
+                return 'false' if neg else 'true'
+        if lt in names and is_const(r, 1) and isinstance(op, ast.Lt):
+            return 'true' if neg else 'false'
+        if lt in names and is_const(r, 1) and isinstance(op, ast.GtE):
+            return 'false' if neg else 'true'
+    return None
+
+
+def check_sync(c, f):
+    g = f.cfg
+    resp = [n.ast.targets[0].id for n in g.nodes if n.kind == 'stmt' and isinstance(n.ast, ast.Assign) and isinstance(n.ast.value, ast.Call)
+            and callee_last(n.ast.value) == 'try_read_prompt' and isinstance(n.ast.targets[0], ast.Name)]
+    c.need(len(resp) >= 2, 'sync_original_prompt: responses of try_read_prompt not found')
+    lens = {}
+    for n in g.nodes:
+        if n.kind == 'stmt' and isinstance(n.ast, ast.Assign) and isinstance(n.ast.targets[0], ast.Name) and isinstance(n.ast.value, ast.Call) \
+                and dotted(n.ast.value.func) == 'len' and n.ast.value.args and isinstance(n.ast.value.args[0], ast.Name) and n.ast.value.args[0].id in resp:
+            lens[n.ast.targets[0].id] = n.ast.value.args[0].id
+    ld = [n for n in g.nodes if n.kind == 'stmt' and isinstance(n.ast, ast.Assign) and isinstance(n.ast.value, ast.Call) and callee_last(n.ast.value) == 'levenshtein_distance']
+    c.need(len(ld) == 1, 'levenshtein_distance call not found')
+    cmp_args = [norm(a) for a in ld[0].ast.value.args]
+    c.check(len(cmp_args) == 2 and cmp_args[0] != cmp_args[1] and all(a in resp for a in cmp_args), f, ld[0].ast,
+            'two DIFFERENT responses are compared', witness=str(cmp_args), kind='ast', tag='compare-two')
+    names = set(cmp_args) | set(k for k, v in lens.items() if v in cmp_args)
+    edges = set()
+    for t in g.nodes:
+        if t.kind == 'test':
+            e = emptiness_edge(t.ast, names)
+            if e:
+                edges.add((t, e))
+    rt = [r for r in returns(f) if is_const(r.ast.value, True)]
+    c.need(len(rt) >= 1, 'sync_original_prompt: no `return True`')
+    for r in rt:
+        p = g.path(g.entry, {r}, skip_labels=('exc',), avoid_edges=edges) if edges else g.path(g.entry, {r}, skip_labels=('exc',))
+        c.check(p is None, f, r.ast, 'success is reported only after the compared response was found to be non-empty (silence from the server is not a prompt)',
+                witness=('no emptiness test on %s guards this return' % sorted(names)) if not edges else 'path: ' + g.describe_path(p), tag='nonempty-response')
+        # and only under the similarity test
+        sim = [t for t in g.nodes if t.kind == 'test' and any(isinstance(x, ast.Name) and x.id == ld[0].ast.targets[0].id for x in ast.walk(t.ast))]
+        ok = any(r in guard_region(g, t, 'true') for t in sim)
+        c.check(ok, f, r.ast, 'success depends on the similarity of the two responses', tag='similar')
+    rf = [r for r in returns(f) if is_const(r.ast.value, False)]
+    c.check(len(rf) >= 1, f, rf[0].ast if rf else None, 'failure is reported as False', kind='ast', tag='false')
+    sl = [k for k in calls_in(f.node) if callee_last(k) == 'sendline']
+    c.check(len(sl) >= 3, f, sl[0] if sl else None, 'the prompt is provoked repeatedly (enter pressed at least three times)', witness='%d sends' % len(sl), kind='ast', tag='probes')
+
+
 def shell_render(s):
     """what the shells display for a prompt string: \\$ and %(!.#.$) become $ or #"""
     outs = set()
@@ -347,6 +415,15 @@ def check_prompt_table(c, repo):
         shown = shell_render(m.group(1))
         okm = all(rx.search(s) for s in shown)
         c.check(okm, f, None, 'UNIQUE_PROMPT matches what %s displays after %r' % (name.lower(), cmd), witness='displays %s' % sorted(shown), kind='alg', tag='match:' + name)
+        # the match must consume the whole displayed prompt, and no proper prefix of it may match: otherwise a read
+        # boundary inside the prompt makes prompt() return early and the rest of the prompt leaks into the next output
+        for disp in sorted(shown):
+            m2 = rx.search(disp)
+            whole = m2 is not None and m2.end() == len(disp)
+            pref = [disp[:i] for i in range(1, len(disp)) if rx.search(disp[:i])]
+            c.check(whole and not pref, f, None, 'the match covers the whole %s prompt %r and no proper prefix of it matches' % (name.lower(), disp),
+                    witness=('prefix %r already matches' % pref[0]) if pref else ('match ends at %s of %d' % (m2.end() if m2 else None, len(disp))),
+                    kind='alg', tag='exact:%s:%s' % (name, disp[-2:]))
         echo_hit = rx.search(cmd)
         c.check(echo_hit is None, f, None, 'UNIQUE_PROMPT does not match the echoed %s set-command itself' % name.lower(),
                 witness='matched %r' % echo_hit.group(0) if echo_hit else None, kind='alg', tag='echo:' + name)
@@ -410,6 +487,9 @@ MUTANTS = [
     ('zsh-prompt-typo', 'pxssh', "PS1='[PEXPECT]%(!.#.$) '", "PS1='[PEXPCT]%(!.#.$) '", 'D5'),
     ('prompt-index-0', 'pxssh', "        i = self.expect([self.PROMPT, TIMEOUT], timeout=timeout)\n        if i==1:\n            return False", "        i = self.expect([self.PROMPT, TIMEOUT], timeout=timeout)\n        if i==0:\n            return False", 'D6'),
     ('sup-false-early', 'pxssh', "            i = self.expect([TIMEOUT, self.PROMPT], timeout=10)\n            if i == 0: # zsh-style", "            i = self.expect([TIMEOUT, self.PROMPT], timeout=10)\n            if i == 0:\n                return False\n            if i == 0: # zsh-style", 'D6'),
+    ('sync-empty-ok', 'pxssh', "        if len_a == 0:\n            return False\n        if float(ld)/len_a < 0.4:", "        if float(ld)/max(len_a, 1) < 0.4:", 'D7'),
+    ('sync-compare-same', 'pxssh', "        ld = self.levenshtein_distance(a,b)", "        ld = self.levenshtein_distance(a,a)", 'D7'),
+    ('unique-prompt-optional-blank', 'pxssh', 'self.UNIQUE_PROMPT = r"\\[PEXPECT\\][\\$\\#] "', 'self.UNIQUE_PROMPT = r"\\[PEXPECT\\][\\$\\#] ?"', 'D5'),
     ('trp-unbounded', 'pxssh', "        while expired < total_timeout:", "        while True:", 'D4'),
 ]
 PRESERVING = []
